@@ -134,11 +134,14 @@ func (w *c12World) flushL1() error {
 
 func c12Gen(rt *rapid.T, w *c12World) error {
 	steps := rapid.IntRange(3, 40).Draw(rt, "steps")
+	// one deposit in five repeats the fields of an earlier one on the same chain (the leaf does not cover the deposit count)
+	var prevL1, prevL2 []bridgesync.Bridge
 	for i := 0; i < steps; i++ {
 		switch rapid.SampledFrom([]string{"l1dep", "l1dep", "l2dep", "l2dep", "verifyOurs", "verifyForeign", "info", "endL1Block", "endL1Block", "inject"}).Draw(rt, "op") {
 		case "l1dep":
-			d := genBridge(rt)
+			d := genBridgeOrRepeat(rt, prevL1)
 			d.BlockNum, d.BlockPos, d.DepositCount, d.DestinationNetwork = w.l1Num+1, w.pos, uint32(len(w.mainLeaves)), jNetID
+			prevL1 = append(prevL1, d)
 			w.pos++
 			l := refBridgeLeaf(d)
 			w.mainFront.Add(l)
@@ -150,9 +153,10 @@ func c12Gen(rt *rapid.T, w *c12World) error {
 				w.addInfo() // the L1 bridge updates the GER on deposit
 			}
 		case "l2dep":
-			d := genBridge(rt)
+			d := genBridgeOrRepeat(rt, prevL2)
 			w.l2Num++
 			d.BlockNum, d.BlockPos, d.DepositCount, d.OriginNetwork = w.l2Num, 0, uint32(len(w.l2Leaves)), jNetID
+			prevL2 = append(prevL2, d)
 			l := refBridgeLeaf(d)
 			w.l2Front.Add(l)
 			w.l2Leaves = append(w.l2Leaves, l)
